@@ -8,21 +8,27 @@ T-corr: (a) write-set audit: during real runs every slot (machine attribute) is 
         (b) impl-vs-impl metamorphic runs = failing-input search for the property itself: random legal
         pipelines with validation on (L, R, [min,max]) and on (R, L, [-max,-min]); products compared
         bit for bit; without validation the right dataset must be empty; a cross-checking step without
-        filling must leave the left disparity map unchanged."""
+        filling must leave the left disparity map unchanged;
+        (c) whole-pipeline stream (harness/props/c08_pipeline.py): the composed model Model/PipelineRun.v (extracted by
+        Extract/X21.v) against whole real runs, state after every step, plus the mirrored real run step by step."""
 import hashlib
 
 import numpy as np
 
 from harness import core
 from harness import pandora_util as pu
+from harness.props import c08_pipeline
 
-GEN = ["gen_callbacks"]
-EXTRACT_FILES = ["X08"]
-DRIVERS = ["x08"]
+# gen_flags / gen_refine_consts / gen_constants: the constants of the tree under test used by the composed
+# pipeline model (Extract/X21.v)
+GEN = ["gen_callbacks", "gen_flags", "gen_refine_consts", "gen_constants"]
+EXTRACT_FILES = ["X08", "X21"]
+DRIVERS = ["x08", "x21"]
 RULE = ("random legal pipelines (sad/ssd/census/zncc, cbca, confidence steps, wta, median/bilateral, vfit/quadratic, "
         "cross-checking with/without mc-cnn/sgm filling, 2-scale multiscale) on random 10-14 x 14-20 image pairs with "
         "masks on both sides; each case = one run + its mirrored run (+ the run without validation); non-trivial = the "
-        "left and right disparity maps differ and both contain valid pixels; distinct by (pipeline, images seed)")
+        "left and right disparity maps differ and both contain valid pixels; distinct by (pipeline, images seed); "
+        + c08_pipeline.RULE_PIPELINE)
 ASSUMES = [
     "the step functions are arbitrary in the theorem; their determinism on the real kernels is what the metamorphic "
     "runs sample",
@@ -32,9 +38,24 @@ ASSUMES = [
     "semantic_segmentation (plugin step, no built-in method) is outside the theorem: its right call reads the left "
     "image already updated by the left call",
     "in-place mutation of arguments is given by the hand-written table `mutated` (Model/Mirror.v), audited on every run",
+    "C08_pipeline_* theorems: about the composed model Model/PipelineRun.v (existing step models of C02/C04/C03/C10/C06/C07/"
+    "C14 glued as the run callbacks glue the steps): sad/ssd/census, wta, median filter, vfit/quadratic, "
+    "cross_checking_accurate with/without mc-cnn/sgm; single scale, scalar interval, images without band dimension; NOT "
+    "in the composed model: cbca (real-valued means make the arg-min rounding-sensitive), zncc, bilateral, confidence "
+    "steps, multiscale, disparity grids, plugins -- for those only the abstract theorem and the impl-vs-impl runs apply",
+    "the composed model is tied to the real pandora.run by the pipeline stream (state after every step); a pixel on which "
+    "the refinement kernel is undefined in the model (int(NaN), read outside the axis) ends the comparison of that case "
+    "(counted: pipeline_refinement_undefined_in_model); after a refinement step values are compared with the bridging "
+    "tolerance and a cross-check within 1e-4 of a rounding tie on the real maps ends the comparison (counted)",
+    "the cost volume is modelled as unchanged by the disparity step (C03_restore_after_subst) and interpolated_coeff / "
+    "disp_indices / attrs other than offset, subpixel and the interval are not part of the composed state",
 ]
 TRUSTED = ["Gen/Callbacks.v produced by translator/gen_callbacks.py (ast of the run callbacks)",
-           "hand-written run_prepare slot model (prepare_single/prepare_multi in Proofs/MirrorP.v)"]
+           "hand-written run_prepare slot model (prepare_single/prepare_multi in Proofs/MirrorP.v; init_state in "
+           "Model/PipelineRun.v, exercised with and without a right interval in the input)",
+           "Gen/Flags.v, Gen/RefineConsts.v, Gen/Constants.v (constants given to the extracted composed model, X21)",
+           "the step models reused by Model/PipelineRun.v are tied to the code by their own checks (C02, C03, C04, C06, "
+           "C07, C10, C14) and, composed, by the pipeline stream of this check"]
 
 SLOT_ATTR = ["left_img", "right_img", "left_cv", "right_cv", "left_disparity", "right_disparity",
              "disp_min", "disp_max", "right_disp_min", "right_disp_max",
@@ -184,6 +205,16 @@ def diff_products(a, b):
 
 
 def run(ctx):
+    # extra stream: the composed whole-pipeline model against whole real runs (harness/props/c08_pipeline.py)
+    if ctx.replay_case is not None and ctx.replay_case.get("stream") == "pipeline":
+        c08_pipeline.run_stream(ctx, 1)
+        return
+    run_wiring(ctx)
+    if ctx.replay_case is None:
+        c08_pipeline.run_stream(ctx, 200 if ctx.tier == "quick" else 3000)
+
+
+def run_wiring(ctx):
     import pandora
 
     rng = ctx.rng
